@@ -576,4 +576,9 @@ def no_stale(ctx):
                        'the analysis contains data of an earlier evaluation', min_methods=5)
 
 
-RULES = [no_stale, list_space, record_fresh, operand_attr, parabasal, distortion, radii]
+def records(ctx):
+    from .C02 import records as _r
+    return _r(ctx)
+
+
+RULES = [no_stale, records, list_space, record_fresh, operand_attr, parabasal, distortion, radii]
